@@ -10,6 +10,8 @@ from hypothesis import strategies as st
 
 LEVY = ["none", "space-time", "davie", "foster"]
 GRIDS = [16, 64, 100, 1000, 1 << 12, 1 << 20, 10 ** 6]
+# tolerances: powers of ten and others (for which the library's rounding grid 10^-int(-log10 tol) is coarser than tol)
+TOLS = [1e-2, 1e-3, 1e-6, 1e-2, 1e-3, 1e-6, 2e-3, 5e-4, 2.5e-6, 0.05]
 
 
 def _one_in(n):
@@ -60,10 +62,10 @@ def configs(draw, wrappers=("interval",), allow_cache0=True, allow_dt=True, allo
         cfg["cache_size"] = draw(st.sampled_from(sizes))
         if allow_halfway and allow_tol and draw(_one_in(4)):
             cfg["halfway"] = True
-            cfg["tol"] = draw(st.sampled_from([1e-2, 1e-3, 1e-6]))
+            cfg["tol"] = draw(st.sampled_from(TOLS))
         else:
             if allow_tol and draw(_one_in(4)):
-                cfg["tol"] = draw(st.sampled_from([1e-2, 1e-3, 1e-6]))
+                cfg["tol"] = draw(st.sampled_from(TOLS))
             if allow_dt and draw(_one_in(3)):
                 cs = cfg["cache_size"]
                 eff = 100 if cs is None else min(cs, 100)
@@ -76,7 +78,7 @@ def configs(draw, wrappers=("interval",), allow_cache0=True, allow_dt=True, allo
             cfg["user_H"] = draw(_one_in(5)) and lv != "none"
     elif wrapper == "tree":
         cfg["halfway"] = True
-        cfg["tol"] = draw(st.sampled_from([1e-2, 1e-3, 1e-6]))
+        cfg["tol"] = draw(st.sampled_from(TOLS))
         cfg["cache_size"] = 45
         if allow_user:
             cfg["user_W"] = draw(_one_in(4))      # w1 supplied
